@@ -64,11 +64,47 @@ func loadOfIndex(v ssa.Value) (ssa.Value, ssa.Value, bool) {
 	if !ok || ld.Op != token.MUL {
 		return nil, nil, false
 	}
+	// a range variable of struct type lives in a local: e := list[i] (one store), then *e
+	if sv := soleStoreTo(ld.X); sv != nil {
+		return loadOfIndex(sv)
+	}
 	ia, ok := ld.X.(*ssa.IndexAddr)
 	if !ok {
 		return nil, nil, false
 	}
 	return ia.X, ia.Index, true
+}
+
+// soleStoreTo: addr is a function-local cell written by exactly one store of a whole value and
+// otherwise only read (loads, field reads): the value stored.
+func soleStoreTo(addr ssa.Value) ssa.Value {
+	al, ok := addr.(*ssa.Alloc)
+	if !ok || al.Heap {
+		return nil
+	}
+	var stored ssa.Value
+	for _, r := range refs(al) {
+		switch x := r.(type) {
+		case *ssa.Store:
+			if x.Addr != ssa.Value(al) || stored != nil {
+				return nil
+			}
+			stored = x.Val
+		case *ssa.UnOp:
+			if x.Op != token.MUL {
+				return nil
+			}
+		case *ssa.FieldAddr:
+			for _, rr := range refs(x) {
+				if u, ok := rr.(*ssa.UnOp); !ok || u.Op != token.MUL {
+					return nil
+				}
+			}
+		default:
+			return nil
+		}
+	}
+	return stored
 }
 
 // listRoots: the parameters / fresh literals a slice value derives from, through phis,
@@ -163,12 +199,39 @@ func runMerge(c *Ctx, prop string) {
 				continue
 			}
 			side := func(v ssa.Value) (root string, idx ssa.Value, field string, ok bool) {
+				// value form (for _, e := range list): field of a copy of list[idx]
+				if fv, isF := v.(*ssa.Field); isF {
+					if X, ix, okL := loadOfIndex(fv.X); okL {
+						r := listRootsOf(X)
+						if len(r) != 1 {
+							return
+						}
+						for k := range r {
+							root = k
+						}
+						return root, ix, fieldValName(fv), true
+					}
+					return
+				}
 				ld, isLd := v.(*ssa.UnOp)
 				if !isLd || ld.Op != token.MUL {
 					return
 				}
 				fa, isFa := ld.X.(*ssa.FieldAddr)
 				if !isFa {
+					return
+				}
+				if sv := soleStoreTo(fa.X); sv != nil {
+					if X, ix, okL := loadOfIndex(sv); okL {
+						r := listRootsOf(X)
+						if len(r) != 1 {
+							return
+						}
+						for k := range r {
+							root = k
+						}
+						return root, ix, fieldAddrName(fa), true
+					}
 					return
 				}
 				ia, isIa := fa.X.(*ssa.IndexAddr)
@@ -209,6 +272,10 @@ func runMerge(c *Ctx, prop string) {
 	var recvIdx ssa.Value
 	var cmpPos token.Pos
 	helperMode := false
+	// direct form: no 'matched index' variable; the match is handled on the equal edge itself and the
+	// 'no match' case is the search loop running to its end
+	directMode := false
+	var dEqFrom, dEqTo, dExitFrom, dExitTo *ssa.BasicBlock
 	if len(cmps) == 0 && len(badCmp) == 0 {
 		// the search may have been extracted: dup := injected.indexOfKey(existing[i].key)
 		for _, b := range ov.Blocks {
@@ -374,18 +441,49 @@ func runMerge(c *Ctx, prop string) {
 				}
 			}
 		}
+		if dup == nil {
+			var inner *loopInfo
+			for _, l := range naturalLoops(ov) {
+				if l.Body[kc.bin.Block()] && (inner == nil || len(l.Body) < len(inner.Body)) {
+					inner = l
+				}
+			}
+			if inner != nil && !inner.Body[eqTo] {
+				exits := inner.exitEdges()
+				var hdrExit [][2]*ssa.BasicBlock
+				for _, ee := range exits {
+					if ee[0] == inner.Header {
+						hdrExit = append(hdrExit, ee)
+					}
+				}
+				// the loop is left either over the equal edge or because the list is exhausted
+				if len(exits) == 2 && len(hdrExit) == 1 {
+					directMode = true
+					dup = kc.inIdx
+					dEqFrom, dEqTo = eqEdgeFrom, eqTo
+					dExitFrom, dExitTo = hdrExit[0][0], hdrExit[0][1]
+				}
+			}
+		}
 	} // !helperMode
 	if dup == nil {
 		c.Unk(rule, fnm, "take", cmpPos, "no 'matched index' variable (sentinel, or the injected index on the equal edge) found: merge shape not recognised")
 		return
 	}
-	if sentinel >= 0 {
+	if sentinel >= 0 && !directMode {
 		c.Bad(rule, fnm, "take", dup.Pos(), fmt.Sprintf("the 'no match' sentinel %d is a valid index of the injected list", sentinel))
 		return
 	}
 	// the test dup == sentinel
 	var noMatchFrom, noMatchTo, matchTo *ssa.BasicBlock
+	var matchFrom *ssa.BasicBlock
+	if directMode {
+		noMatchFrom, noMatchTo, matchFrom, matchTo = dExitFrom, dExitTo, dEqFrom, dEqTo
+	}
 	for _, r := range refs(dup) {
+		if directMode {
+			break
+		}
 		bo, ok := r.(*ssa.BinOp)
 		if !ok {
 			continue
@@ -414,6 +512,9 @@ func runMerge(c *Ctx, prop string) {
 		case isK && kv == sentinel && bo.Op == token.GTR && bo.X == dup: // dup > -1
 			noMatchFrom, noMatchTo, matchTo = bo.Block(), f, t
 		}
+	}
+	if matchFrom == nil {
+		matchFrom = noMatchFrom
 	}
 	if noMatchFrom == nil {
 		c.Unk(rule, fnm, "keep", dup.Pos(), "no test of the matched index against its sentinel found: merge shape not recognised")
@@ -525,7 +626,7 @@ func runMerge(c *Ctx, prop string) {
 			if idx != recvIdx {
 				keepBad = append(keepBad, "the existing element appended is not the one whose key was compared at "+p.Pos(call.Pos()))
 			}
-			if !(noMatchTo == call.Block() || edgeDominates(noMatchFrom, noMatchTo, call.Block())) {
+			if !(noMatchTo == call.Block() && (!directMode || len(noMatchTo.Preds) == 1) || edgeDominates(noMatchFrom, noMatchTo, call.Block())) {
 				keepBad = append(keepBad, "the existing element is kept although a matching injected key may have been found (old value wins) at "+p.Pos(call.Pos()))
 			}
 		case onlyRoot(X, argRoot):
@@ -534,7 +635,7 @@ func runMerge(c *Ctx, prop string) {
 			if idx != dup {
 				takeBad = append(takeBad, "the injected element appended is not the one at the matched index at "+p.Pos(call.Pos()))
 			}
-			if !(matchTo == call.Block() || edgeDominates(noMatchFrom, matchTo, call.Block())) {
+			if !(matchTo == call.Block() && (!directMode || len(matchTo.Preds) == 1) || edgeDominates(matchFrom, matchTo, call.Block())) {
 				takeBad = append(takeBad, "an injected element is appended where no match was found at "+p.Pos(call.Pos()))
 			}
 			if X != REM {
@@ -671,6 +772,31 @@ func runMerge(c *Ctx, prop string) {
 				fad, ok := st.Addr.(*ssa.FieldAddr)
 				if !ok || !strings.Contains(fad.X.Type().String(), "tagItem") {
 					continue
+				}
+				// splitting form: kv := strings.SplitN(t, ":", 2); key = kv[0], value = kv[1]
+				// (exactly two parts: a value may itself contain ':')
+				if X, idx, ok := loadOfIndex(st.Val); ok {
+					if call, isCall := X.(*ssa.Call); isCall && calleeName(&call.Call) == "strings.SplitN" {
+						sep, _ := constString(call.Call.Args[1])
+						n, okN := constInt(call.Call.Args[2])
+						k, okK := constInt(idx)
+						c.Sites++
+						switch {
+						case sep != ":" || !okN || n != 2 || !okK:
+							bad = append(bad, fieldAddrName(fad)+" is not taken from the token split once at its first ':'")
+						case fieldAddrName(fad) == "key":
+							nk++
+							if k != 0 {
+								bad = append(bad, "key is not the token's text before its first ':'")
+							}
+						case fieldAddrName(fad) == "value":
+							nv++
+							if k != 1 {
+								bad = append(bad, "value is not the token's text after its first ':'")
+							}
+						}
+						continue
+					}
 				}
 				sl, isSl := st.Val.(*ssa.Slice)
 				if !isSl {
